@@ -621,6 +621,21 @@ class Walker:
                     self.ev(n['body'], And(pc, ic, c_, f_))
                     self.loops.pop()
             return ('unit',), ic
+        if isinstance(iv, tuple) and iv and iv[0] == 'ite':
+            # the collection itself was chosen by a condition (`if all { map.keys().collect() } else { set }`): one loop per case
+            def _cases(t, c):
+                if isinstance(t, tuple) and t and t[0] == 'ite':
+                    return _cases(t[2], And(c, t[1])) + _cases(t[3], And(c, Not(t[1])))
+                return [(c, t)]
+            for c_, coll in _cases(iv, T):
+                if coll[:1] == ('never',) or sat(And(pc, c_)) is None:
+                    continue
+                elem, facts = self.elem_of(coll, None, And(pc, c_))
+                self.loops.append(('for', n.get('hid'), coll, n))
+                self.bind(n['pat'], elem, And(pc, c_))
+                self.ev(n['body'], And(pc, ic, c_, facts))
+                self.loops.pop()
+            return ('unit',), ic
         elem, facts = self.elem_of(iv, n['iter'], pc)
         self.loops.append(('for', n.get('hid'), iv, n))
         m = self.bind(n['pat'], elem, pc)
